@@ -4,7 +4,7 @@
 export GOFLAGS=-mod=mod GOPROXY=off GOSUMDB=off GOTOOLCHAIN=local
 cd /verif/harness || exit 2
 mkdir -p /tmp/vout; rm -f /tmp/vout/violation-*.json
-VERIF_OUT=/tmp/vout VERIF_TMP=/tmp/vout go test -tags verif -count=1 -timeout 900s -run "^$1\$" -rapid.checks=${3:-500} -rapid.seed=${2:-1} -rapid.steps=${4:-30} -rapid.shrinktime=0s -rapid.nofailfile . 2>&1 | grep -v "rapid\] draw" | grep -E "^\s+\[|^ok|^FAIL|^---|panic|passed" | cut -c1-700 | head -${LINES_MAX:-8}
+VERIF_OUT=/tmp/vout VERIF_TMP=/tmp/vout go test -tags verif -count=1 -timeout 900s -run "^$1\$" -rapid.checks=${3:-500} -rapid.seed=${2:-1} -rapid.steps=${4:-30} -rapid.shrinktime=0s -rapid.nofailfile . 2>&1 | grep -av "rapid\] draw" | grep -aE "^\s+\[|^ok|^FAIL|^---|panic|passed" | cut -c1-700 | head -${LINES_MAX:-8}
 for f in /tmp/vout/violation-*.json; do
   [ -f "$f" ] || continue
   python3 - "$f" <<'PY'
